@@ -15,11 +15,53 @@ def validate_coroutine(ctx, name):
     vb = ctx.validate_body(name)
     if vb is None:
         return None, None
+    def spawns(x):
+        return any(callee_matches(t, r"tokio::task::JoinSet::<T>::spawn$") for bi, t in x.calls())
+    cands = []
     for b in ctx.facts.with_descendants(vb):
-        if any(callee_matches(t, r"tokio::task::JoinSet::<T>::spawn$") for bi, t in b.calls()):
-            # normalised view: block selection written as a pipeline reads like the `if let … else continue`
-            return vb, ctx.inl(b, skip=ctx.domain_api, tag="domain", sugar=True)
+        if spawns(b):
+            # the spawn may sit in a closure of the coroutine (`..try_for_each(|..| { tasks.spawn(..) })`): the
+            # body to read is the enclosing coroutine, where the pipeline is expanded around it
+            top = b
+            while top.kind == "Closure" and not top.coroutine and top.parent and ctx.facts.body(top.parent) is not None:
+                top = ctx.facts.body(top.parent)
+            if top.id not in [c.id for c in cands]:
+                cands.append(top)
+    for b in cands:
+        # normalised view: block selection written as a pipeline reads like the `if let … else continue`
+        return vb, ctx.inl(b, skip=ctx.domain_api, tag="domain", sugar=True)
     return vb, None
+
+
+def spawned_tasks(ctx, name):
+    """The coroutine bodies handed to `JoinSet::spawn` by validator `name` (an async block, or the body of an
+    `async fn` / async method whose future is spawned)."""
+    vb, co = validate_coroutine(ctx, name)
+    out = []
+    if co is None:
+        return out
+    E = ctx.expr(co)
+    for bi, t in co.calls():
+        if not callee_matches(t, r"tokio::task::JoinSet::<T>::spawn(_local|_on|_blocking)?$") or len(t["args"]) < 2:
+            continue
+        te = E.operand(t["args"][1])
+        task = None
+        for x in walk(te):
+            if x[0] == "agg" and (str(x[1]).startswith("closure:") or str(x[1]).startswith("coroutine:")):
+                tb = ctx.facts.body(str(x[1]).split(":", 1)[1])
+                if tb is not None and tb.coroutine:
+                    task = tb
+        if task is None and te[0] == "call":
+            cand = ctx.facts.body(te[1]) if isinstance(te[1], str) else None
+            for c in ([cand] if cand is not None else [c for c in ctx.facts.bodies.values() if c.promoted is None and c.kind in ("Fn", "AssocFn") and c.id.endswith(str(te[1]).split("::")[-1])]):
+                for bi2, j2, s2 in c.assigns():
+                    if s2["rv"]["k"] == "agg" and s2["rv"].get("agg") in ("coroutine", "closure") and s2["lhs"]["l"] == 0:
+                        tb = ctx.facts.body(s2["rv"]["path"])
+                        if tb is not None and tb.coroutine:
+                            task = tb
+        if task is not None and task not in out:
+            out.append(task)
+    return out
 
 
 def check_once(ctx, out, prefix, name, per_task_call_rx, per_task_what, per_task_alt=None):
